@@ -2,6 +2,7 @@ package cleaner
 
 import (
 	"context"
+	"fmt"
 	"maps"
 	"slices"
 	"sync"
@@ -10,6 +11,7 @@ import (
 	"github.com/PowerDNS/lightningstream/config"
 	"github.com/PowerDNS/lightningstream/snapshot"
 	"github.com/PowerDNS/lightningstream/utils"
+	"github.com/PowerDNS/lightningstream/utils/verifhook"
 	"github.com/PowerDNS/simpleblob"
 	"github.com/samber/lo"
 	"github.com/sirupsen/logrus"
@@ -76,6 +78,7 @@ func (w *Worker) Run(ctx context.Context) error {
 		if err != nil {
 			w.l.WithError(err).Warn("Clean run failed")
 		}
+		verifhook.Yield(w.name, "cleaner.run_done", fmt.Sprintf("%p", w))
 		if err = utils.SleepContextPerturb(ctx, w.conf.Interval); err != nil {
 			return err
 		}
